@@ -9,7 +9,10 @@ g = sys.argv[1]
 checks = sys.argv[2:] or ["C%02d" % i for i in range(1, 21)]
 wt = "/tmp/wt_H%s" % g
 subprocess.run("git -C %s checkout -q -- . ; git -C %s checkout -q --detach $(git -C /repo rev-parse HEAD)" % (wt, wt), shell=True)
+only = [int(x) for x in os.environ.get("ONLY", "").split(",") if x]
 for i in range(1, 10):
+    if only and i not in only:
+        continue
     src = "/tmp/harmless_%s/%d" % (g, i)
     if not os.path.exists(src + "/patch.diff"):
         continue
